@@ -6,6 +6,7 @@ import z3
 
 from .sym import SV, St, Untranslatable, NATIVE, Outcome
 from .expr import Frame
+from .sym import St
 
 
 class BuiltinMixin:
@@ -18,6 +19,30 @@ class BuiltinMixin:
             h = getattr(self, "bi_" + name, None)
             if h is not None and (name not in self.SPEC_ONLY or fr.kind == "spec"):
                 return h(node, st, fr)
+            if fr.kind == "spec" and name in self.side.specs_rec:
+                macro = self.side.specs_rec[name]
+                nparams = len(macro.args.args)
+                f = self.voc.fn("spec_" + name, *([self.voc.Val] * nparams + [z3.BoolSort()]))
+                done = self.__dict__.setdefault("_specrec_done", set())
+                if name not in done:
+                    done.add(name)
+                    bvs = [self.bv("sp_" + a.arg) for a in macro.args.args]
+                    tmp = St()
+                    for a_, b_ in zip(macro.args.args, bvs):
+                        tmp.env[a_.arg] = SV(b_, "any")
+                    sfr = Frame(fr.fi, fr.contract, fr.cls, kind="spec")
+                    self.init_frame(sfr)
+                    body = None
+                    for stmt_ in macro.body:
+                        if isinstance(stmt_, ast.Assign):
+                            self.assign_place(stmt_.targets[0], self.ev(stmt_.value, tmp, sfr), tmp, sfr)
+                        elif isinstance(stmt_, ast.Return):
+                            body = self.evb(stmt_.value, tmp, sfr)
+                    for extra in tmp.facts:
+                        self.add_global_fact(z3.ForAll(bvs, extra))
+                    self.add_global_fact(z3.ForAll(bvs, f(*bvs) == body, patterns=[f(*bvs)]))
+                args = [self.box(self.ev(a, st, fr)) for a in node.args]
+                return SV(f(*args), "bool")
             if fr.kind == "spec" and name in self.side.specs:
                 macro = self.side.specs[name]
                 args = [self.ev(a, st, fr) for a in node.args]
@@ -69,6 +94,11 @@ class BuiltinMixin:
         if callee.pt == "any" and isinstance(fn, ast.Attribute) and ("attr:" + fn.attr) in self.side.assumed:
             args, kwargs = self.eval_args(node, st, fr)
             return self.call_named("attr:" + fn.attr, [callee] + args, kwargs, st, fr, node)
+        if callee.pt == "any" and isinstance(fn, ast.Name) and ("param:" + fn.id) in self.side.assumed:
+            args, kwargs = self.eval_args(node, st, fr)
+            if "**" in kwargs:
+                args = args + [kwargs.pop("**")]
+            return self.call_named("param:" + fn.id, [callee] + args, kwargs, st, fr, node)
         if callee.pt == "pyfunc":
             kind = callee.py[0]
             if kind == "method":
@@ -117,7 +147,10 @@ class BuiltinMixin:
                 m = self.repo.find_method(sub.replace("__", "."), mname)
                 if m is not None:
                     impls.setdefault(m.key, (m, []))[1].append(sub)
-        if len(impls) <= 1:
+        base_c = self.side.contracts.get(static_impl.key)
+        if len(impls) <= 1 or (base_c is not None and base_c.opts.get("covers_overrides")):
+            if base_c is not None and base_c.opts.get("covers_overrides") and len(impls) > 1:
+                self.used_assumptions.add(f"overrides of {static_impl.key.split('::')[-1]} satisfy the base contract (behavioural subtyping, not re-verified per override)")
             return self.call_function(static_impl, [obj] + args, kwargs, st, fr, node)
         res = None
         ov = self.box(obj)
